@@ -407,6 +407,9 @@ func (eng *Engine) loadContracts() {
 	for _, t := range eng.cs.Owned {
 		eng.ownedTypes[t] = true
 	}
+	for _, f := range eng.cs.Finals {
+		finalKeys[f] = true
+	}
 }
 
 func (eng *Engine) srcLine(pos token.Pos) string {
@@ -482,6 +485,7 @@ type Exec struct {
 	boundMake bool
 	guardN   map[string]int
 	ownsN    int
+	finalN   int
 	written  map[string]bool
 	havocGhosts bool
 	curCall  *ast.CallExpr
@@ -610,7 +614,10 @@ type FuncReport struct {
 }
 
 // findFragment locates the statement list of a fragment selector.
+var fragEnd token.Pos
+
 func findFragment(fi *FuncInfo, frag string) (pre ast.Stmt, body []ast.Stmt, pos token.Pos, ok bool) {
+	fragEnd = token.NoPos
 	f := strings.Fields(frag)
 	if len(f) < 3 {
 		return nil, nil, 0, false
@@ -638,6 +645,9 @@ func findFragment(fi *FuncInfo, frag string) (pre ast.Stmt, body []ast.Stmt, pos
 			return nil, nil, 0, false
 		}
 		cc := found.Body.List[k-1].(*ast.CommClause)
+		if len(cc.Body) > 0 {
+			fragEnd = cc.Body[len(cc.Body)-1].End()
+		}
 		return cc.Comm, cc.Body, cc.Pos(), true
 	case "loop":
 		cnt := 0
@@ -663,6 +673,7 @@ func findFragment(fi *FuncInfo, frag string) (pre ast.Stmt, body []ast.Stmt, pos
 		if b == nil {
 			return nil, nil, 0, false
 		}
+		fragEnd = b.Rbrace
 		return nil, b.List, b.Lbrace, true
 	}
 	return nil, nil, 0, false
@@ -794,6 +805,9 @@ func (eng *Engine) verify(c *Contract, prop string) (rep *FuncReport, err error)
 	endPos := fi.Body.Rbrace
 	if c.Frag != "" {
 		endPos = bodyPos
+		if fragEnd.IsValid() {
+			endPos = fragEnd
+		}
 	}
 	// ghost updates: executed at every return (the function's ghost effect)
 	for _, cl := range c.Clauses {
@@ -961,21 +975,23 @@ func (ex *Exec) frameCheck(rec *recorder, pos token.Pos) {
 		// no modifies clause: the contract does not claim a frame; callers
 		// then see "modifies nothing", so it must be proved that nothing changed.
 	}
-	if rec.all {
-		if c.Havoc {
-			return
-		}
-		if c.HavocHeap {
-			// program state may change arbitrarily; ghost effect logs only as declared
-			for k := range rec.heap {
-				if !strings.HasPrefix(k, "G$") {
-					delete(rec.heap, k)
-				}
+	if c.Havoc {
+		// callers see the whole heap (ghost state included) havocked: no frame is claimed
+		return
+	}
+	if c.HavocHeap && !rec.havocDone {
+		// program state may change arbitrarily; ghost effect logs only as declared
+		for k := range rec.heap {
+			if !strings.HasPrefix(k, "G$") {
+				delete(rec.heap, k)
 			}
-			rec.all = false
-			ex.frameCheck(rec, pos)
-			return
 		}
+		rec.all = false
+		rec.havocDone = true
+		ex.frameCheck(rec, pos)
+		return
+	}
+	if rec.all {
 		ob := &Obligation{Prop: ex.prop, Func: c.Func, Name: obName(c) + "/frame:unknown-call", Kind: "frame", Pos: ex.pos(pos), Text: "the function calls code without a contract, so its frame cannot be established; declare `havoc` or give the callee a contract"}
 		ob.Script = "(check-sat)\n"
 		ob.Result = "engine"
